@@ -68,6 +68,27 @@ def groups(tier):
     out = [('value[%s,n=%d]' % (m, n), ('value', m, n, o, t, r)) for (m, n, o, t, r) in grid(tier)]
     out.append(('zero-order', ('zero',)))
     out.append(('integer-x', ('intx',)))
+    out += contract_groups(tier)
+    return out
+
+
+def contract_groups(tier):
+    """The value groups above are modular: they take the rule (C06), the per-column selection (C08), the element-wise
+    array handling (C08) and the Bicomplex algebra (C12) by contract.  A change that breaks one of those contracts breaks
+    this property too, so the obligations of those contracts are discharged here as well (same generators, own group
+    names `contract:...`); Richardson and dea3 are executed for real in the value groups."""
+    from . import C06, C12
+    ns, orders = C06.grid(tier)
+    out = []
+    for m in C06.METHODS:
+        for n in ns:
+            out.append(('contract:rule[%s,n=%d]' % (m, n), ('dep', 'C06', 'run_cfg', (m, n, orders), dict(group_fmt='contract:rule[%s,n=%d]/order=%d/', requested_order=False))))
+    for kn in [(4, 2), (3, 3), (6, 2), (1, 2), (2, 1)]:
+        out.append(('contract:best-estimate[%d,%d]' % kn, ('dep', 'C08', 'run_best', kn, {})))
+    for c in [('central', 1, 2), ('complex', 1, 2)] + ([] if tier == 'quick' else [('forward', 3, 3), ('multicomplex', 2, 2)]):
+        out.append(('contract:elementwise[%s,n=%d,order=%d]' % c, ('dep', 'C08', 'run_deriv', c, {})))
+    for g, a in C12.groups(tier):
+        out.append(('contract:bicomplex[%s]' % g, ('dep', 'C12', 'run_group', (a,), {})))
     return out
 
 
@@ -274,6 +295,9 @@ def run_intx():
 
 
 def run_group(args):
+    if args[0] == 'dep':
+        import importlib
+        return getattr(importlib.import_module('props.' + args[1]), args[2])(*args[3], **args[4])
     if args[0] == 'intx':
         return run_intx()
     if args[0] == 'value':
@@ -281,9 +305,19 @@ def run_group(args):
     return run_zero()
 
 
+CONTRACT_ORIGIN = [('contract:rule[', 'C06', 'cfg['), ('contract:best-estimate[', 'C08', 'best-estimate['), ('contract:elementwise[', 'C08', 'deriv['),
+                   ('contract:bicomplex[', 'C12', None)]
+
+
 def replay_case(ob):
     import re
     nm = ob['name']
+    for pre, modname, orig in CONTRACT_ORIGIN:
+        if nm.startswith(pre):
+            import importlib
+            ob2 = dict(ob)
+            ob2['name'] = (orig + nm[len(pre):]) if orig else nm.split(']/', 1)[0][len(pre):] + '/' + nm.split(']/', 1)[1]
+            return importlib.import_module('props.' + modname).replay_case(ob2)
     mm = re.search(r'integer-x/(\w+),n=(\d+),(\w+):', nm)
     if mm:
         return dict(kind='common.intx', klass=mm.group(1), method=mm.group(3), n=int(mm.group(2)), f='cubic')
